@@ -4,6 +4,7 @@ import (
 	"bytes"
 	"fmt"
 	"math"
+	"sync"
 )
 
 // https://github.com/golang/net/blob/5a444b4f2fe893ea00f0376da46aa5376c3f3e28/http2/http2.go#L112-L119
@@ -27,6 +28,11 @@ type HeaderField struct {
 }
 
 type HTTP2FingerprintingFrames struct {
+	// The frames are recorded by the connection's serve goroutine while
+	// request handlers of the same connection read them concurrently.
+	// Writers hold the lock exclusively, readers hold it shared.
+	sync.RWMutex
+
 	// Data from SETTINGS frame
 	Settings []Setting
 
@@ -47,6 +53,9 @@ func (f *HTTP2FingerprintingFrames) String() string {
 // TODO: add tests
 func (f *HTTP2FingerprintingFrames) Marshal(maxPriorityFrames uint) string {
 	var buf bytes.Buffer
+
+	f.RLock()
+	defer f.RUnlock()
 
 	// SETTINGS frame
 	for i, s := range f.Settings {
